@@ -33,6 +33,20 @@ def main():
         c = r.get('checks', {}).get(r['prop'], {})
         lines.append('| %s | %s | %s | %s | %s |' % (r['id'], r['prop'], r.get('note', '').replace('|', '/'), r['verdict'] if r['verdict'] not in ('suite-kills',) else 'dropped: the repository suite notices it',
                                                    ', '.join(c.get('keys', [])) or r.get('detail', '')[:60]))
+    bpath = os.path.join(HERE, 'selftest_benign.json')
+    if os.path.exists(bpath):
+        ben = json.load(open(bpath))
+        lines.append('')
+        lines.append('### 11.3 Behaviour-preserving refactorings (`benign/<n>/`): all twenty checks must stay silent')
+        lines.append('')
+        lines.append('| refactoring | theme | outcome over the 20 quick checks | alarms |')
+        lines.append('|---|---|---|---|')
+        for r in ben:
+            name = r['id'][len('benign-'):]
+            rcs = {p: c['rc'] for p, c in r.get('checks', {}).items()}
+            lines.append('| %s | %s | %s (%d checks exit 0) | %s |' % (
+                name, r.get('note', '').replace('|', '/'), r['verdict'], sum(1 for v in rcs.values() if v == 0),
+                json.dumps(r.get('alarms', {})) if r.get('alarms') else '-'))
     n = {v: sum(1 for r in own if r['verdict'] == v) for v in {r['verdict'] for r in own}}
     lines.append('')
     lines.append('Totals: seeded %d (caught %d); own %s.' % (len(seeded), sum(r['verdict'] == 'caught' for r in seeded), n))
